@@ -23,7 +23,10 @@ class DeliveryMonitor(Monitor):
     handed, which callbacks fired.  Checks fabrication and multiplicity on
     every delivery (C04 / C06 core)."""
 
-    def __init__(self, check_dup_datagram=False, flag_delivery=True):
+    def __init__(self, check_dup_datagram=False, flag_delivery=True, flag_stale_window_duplicates=True):
+        # flag_stale_window_duplicates=False: a second delivery of a copy that arrived after >= 256 newer message numbers
+        # is C04's known finding F02b; checks of OTHER properties that use such schedules do not report it
+        self.flag_stale_window_duplicates = flag_stale_window_duplicates
         Monitor.__init__(self)
         # fabricated / at-most-once verdicts belong to C04 and C06; other checks only use the bookkeeping
         self.flag_delivery = flag_delivery
@@ -57,6 +60,8 @@ class DeliveryMonitor(Monitor):
                     why = "copy arrived after >=256 newer message seqs had been accepted"
             except Exception:
                 pass
+            if why.startswith("copy arrived") and not self.flag_stale_window_duplicates:
+                return
             self.flag("at-most-once", "payload delivered more often than sent [%s]" % why,
                       "endpoint %s was handed payload %r... %d times, sent %d time(s)" % (
                           recv, data[:20], self.delivered[recv][data], n_sent))
